@@ -11,6 +11,10 @@ package cfg
 // of "\." / the second dot of ".."): outlen + nsep + nesc == len(selector).  Nothing
 // already collected for an element is lost or repeated in a later element.
 
+// Precedence of the two dot escapes: a dot behind a backslash is the backslash escape
+// whatever follows it (`a\..b` is ["a.", "b"]); the ".." escape applies only to a dot
+// that is not behind a backslash; a separator is neither.
+
 //@ func ParseFieldSelector
 //@   ghost outlen int = 0
 //@   ghost nsep int = 0
@@ -19,6 +23,8 @@ package cfg
 //@   loop 1 invariant outlen + len(tail) + nsep + nesc + len(selector) == old(len(selector)) && outlen >= 0 && nsep >= 0 && nesc >= 0
 //@   setat "selector[:pos-1]" nesc := nesc + 1
 //@   setat "selector[:pos+1]" nesc := nesc + 1
+//@   assert at "selector[:pos+1]" !(pos > 0 && selector[pos - 1] == '\\')
+//@   assert at "result = append(result, tail+selector[:pos])" !(pos > 0 && selector[pos - 1] == '\\') && !(len(selector) > pos + 1 && selector[pos + 1] == '.')
 //@   setat "result = append(result, tail+selector[:pos])" outlen := outlen + len(tail) + pos
 //@   setat "result = append(result, tail+selector[:pos])" nsep := nsep + 1
 //@   setat "result = append(result, tail+selector)" outlen := outlen + len(tail) + len(selector)
